@@ -8,6 +8,7 @@ import MaltModel.Proofs.C08Classes
 import MaltModel.Proofs.C08Nested
 import MaltModel.Proofs.C08Comp
 import MaltModel.Proofs.C08CompDynamic
+import MaltModel.Proofs.C08FreesTop
 /-
 C08 — scope (activity) analysis matches Python's own binding rules.
 
@@ -396,12 +397,168 @@ theorem C08_classes_nested (i : Nat) (name : String) (ai : Nat) (po ar va ko kd 
           exact leakFree_allL new _ hroot _ hmem hkind
       simp only [FragS, Bool.and_eq_true] at hdf
       simp only [SpecOkS] at hds
-      obtain ⟨cI, ca, h1, h2, hb, hg, hn, hp⟩ := hok
+      obtain ⟨cI, ca, h1, h2, hb, hg, hn, hp, -⟩ := hok
       obtain ⟨hid, hps, hls, hgs, hns⟩ :=
         def_matches i' name' ai' po' ar' va' ko' kd' kw' df' body' decos' returns' isAsync' hdf.2 hds cI ca hb hg hn hp info hfacts hlk hdisjAll
       refine ⟨cI, ca, info, ?_, ?_, htab, hid, hps, hls, hgs, hns⟩
       · rw [St.anno?, find_of_unique _ hu i' .argsAndBodyScope cI h1]; rfl
       · rw [St.anno?, find_of_unique _ hu ai' .scope ca h2]; rfl
+    | _ => simp [FragS] at hdf
+  | _ => trivial
+
+/-! ### free variables of nested functions -/
+
+/-- `FreesMatch st root tab d`: for the function definition `d` (at any nesting depth), with `cI` its recorded
+    ARGS_AND_BODY scope, `info` the entry of its block in the symbol table and `B` the names CPython makes visible
+    to it from the enclosing function-like blocks (class bodies skipped, names declared `global` on the way cut off):
+    * the names the analysis has `d` pass to its enclosing scope — `read − bound`, i.e. `Scope.free_vars` —
+      together with its declared nonlocals, minus its declared globals, are exactly `outerB`: the names CPython
+      resolves outside `d` (free or implicit global in `d`, or in a block nested in `d` that `d` does not supply);
+    * the free variables CPython gives `d` (`co_freevars`, including those only threaded through for nested
+      blocks) are the members of that set that are in `B`; the others are its (or its nested blocks') implicit globals. -/
+def FreesMatch (st : St) (root : Block) (tab : List BlockInfo) : Stmt → Prop
+  | .functionDef i name (.arguments ai po ar va ko kd kw df) body decos returns isAsync =>
+      ∃ cI info B, st.anno? i .argsAndBodyScope = some cI ∧ info ∈ tab ∧ info.id = i ∧
+        (mkDefBlock (.functionDef i name (.arguments ai po ar va ko kd kw df) body decos returns isAsync), B) ∈ ctxBlocks [] root ∧
+        (∀ x, ((x ∈ cI.freeVars.names ∨ x ∈ cI.nonlocals.names) ∧ x ∉ cI.globals.names) ↔
+              x ∈ outerB (mkDefBlock (.functionDef i name (.arguments ai po ar va ko kd kw df) body decos returns isAsync))) ∧
+        (∀ x, x ∈ info.frees ↔
+              x ∈ outerB (mkDefBlock (.functionDef i name (.arguments ai po ar va ko kd kw df) body decos returns isAsync)) ∧ x ∈ B)
+  | _ => True
+
+/-- **Free variables of every function definition, at every nesting depth.**  For every tree of the fragment
+    `FragS` on which the decidable predicates of the known deviation classes are empty — no parameter of a
+    nested function leaking where it matters (`harmfulLeaks`), no class body shadowing what its methods need
+    (`classShadow`), no `global` / `nonlocal` declaration below a function that does not declare the name
+    itself (`globalBelow`, `nonlocalBelow`); named expressions in comprehensions and parameter annotations are
+    outside `FragS` — and whose `nonlocal` declarations all resolve (`nonlocalsResolve`: otherwise CPython
+    rejects the program), *every* function definition nested in statement position anywhere in the tree satisfies
+    `FreesMatch`: by induction over the scope tree, through functions, lambdas and class bodies of any depth. -/
+theorem C08_frees_nested (i : Nat) (name : String) (ai : Nat) (po ar va ko kd kw df : List Expr) (body : List Stmt)
+    (decos returns : List Expr) (t : Stmt)
+    (ht : t = .functionDef i name (.arguments ai po ar va ko kd kw df) body decos returns false)
+    (hf : FragS t = true) (hs : SpecOkS t = true) (hu' : uniqueAnnos (analyze t).annos = true)
+    (hleak : harmfulLeaks t = []) (hshadow : classShadow t = []) (hgb : globalBelow t = []) (hnb : nonlocalBelow t = [])
+    (hnl : nonlocalsResolve t = true) :
+    ∀ d ∈ defsS t, FreesMatch (analyze t) (mkDefBlock t) (Spec.table t) d := by
+  have hu := unique_of_bool _ hu'
+  subst ht
+  intro d hdd
+  obtain ⟨hdf, hds⟩ := defsS_frag _ hf hs d hdd
+  have hok := visitS_defs _ St.init [] init_plainS hf d hdd
+  have hblk := blockOf_functionDef i name ai po ar va ko kd kw df body decos returns false
+  have hf' := hf
+  simp only [FragS, Bool.and_eq_true, Bool.not_eq_true'] at hf'
+  have hbody : FragSs body = true := hf'.2
+  have hsb : SpecOkSs body = true := by simpa [SpecOkS] using hs
+  have hC := collectSs_spec body hbody hsb { params := (po ++ ar ++ ko ++ va ++ kw).filterMap paramName }
+  obtain ⟨new, hnew, hwnew, hdnew⟩ := (collectSs_blocks body hbody hsb { params := (po ++ ar ++ ko ++ va ++ kw).filterMap paramName }).ext
+  simp only [List.nil_append] at hnew
+  have hall : allBlocks (mkDefBlock (.functionDef i name (.arguments ai po ar va ko kd kw df) body decos returns false)) =
+      mkDefBlock (.functionDef i name (.arguments ai po ar va ko kd kw df) body decos returns false) :: allBlocksL new := by
+    simp only [mkDefBlock, Acc.toBlock, allBlocks, hnew]
+  have hmem : mkDefBlock d ∈ allBlocks (mkDefBlock (.functionDef i name (.arguments ai po ar va ko kd kw df) body decos returns false)) := by
+    simp only [defsS, List.mem_cons] at hdd
+    rw [hall]
+    rcases hdd with rfl | hdd
+    · exact List.mem_cons_self
+    · exact List.mem_cons_of_mem _ (hdnew _ (List.mem_map.mpr ⟨d, hdd, rfl⟩))
+  have hw : ∀ b' ∈ allBlocks (mkDefBlock (.functionDef i name (.arguments ai po ar va ko kd kw df) body decos returns false)),
+      b'.walrus = [] := by
+    intro b' hb'
+    rw [hall] at hb'
+    simp only [List.mem_cons] at hb'
+    rcases hb' with rfl | hb'
+    · simpa [mkDefBlock, Acc.toBlock, Block.walrus] using hC.walrus
+    · exact hwnew b' hb'
+  have nil_of_dedup : ∀ l : List String, l.eraseDups = [] → l = [] := by
+    intro l h
+    apply List.eq_nil_iff_forall_not_mem.mpr
+    intro y hy
+    have h3 := List.mem_eraseDups.mpr hy
+    rw [h] at h3
+    exact List.not_mem_nil h3
+  -- the deviation classes are empty below the root …
+  have hch : (mkDefBlock (.functionDef i name (.arguments ai po ar va ko kd kw df) body decos returns false)).children = new := by
+    simp only [mkDefBlock, Acc.toBlock, Block.children, hnew]
+  have hLroot : leaksBs ((mkDefBlock (.functionDef i name (.arguments ai po ar va ko kd kw df) body decos returns false)).params ++
+      (mkDefBlock (.functionDef i name (.arguments ai po ar va ko kd kw df) body decos returns false)).binds ++
+      (mkDefBlock (.functionDef i name (.arguments ai po ar va ko kd kw df) body decos returns false)).globals ++
+      (mkDefBlock (.functionDef i name (.arguments ai po ar va ko kd kw df) body decos returns false)).nonlocals) new = [] := by
+    have := hleak
+    simp only [harmfulLeaks, hblk, Acc.toBlock] at this
+    simp only [mkDefBlock, Acc.toBlock, Block.params, Block.binds, Block.globals, Block.nonlocals, ← hnew]
+    exact nil_of_dedup _ this
+  have hGroot : declBelowBs true ((mkDefBlock (.functionDef i name (.arguments ai po ar va ko kd kw df) body decos returns false)).params ++
+      (mkDefBlock (.functionDef i name (.arguments ai po ar va ko kd kw df) body decos returns false)).binds ++
+      (mkDefBlock (.functionDef i name (.arguments ai po ar va ko kd kw df) body decos returns false)).globals ++
+      (mkDefBlock (.functionDef i name (.arguments ai po ar va ko kd kw df) body decos returns false)).nonlocals) new = [] := by
+    have := hgb
+    simp only [globalBelow, hblk, Acc.toBlock] at this
+    simp only [mkDefBlock, Acc.toBlock, Block.params, Block.binds, Block.globals, Block.nonlocals, ← hnew]
+    exact nil_of_dedup _ this
+  have hNroot : declBelowBs false ((mkDefBlock (.functionDef i name (.arguments ai po ar va ko kd kw df) body decos returns false)).params ++
+      (mkDefBlock (.functionDef i name (.arguments ai po ar va ko kd kw df) body decos returns false)).binds ++
+      (mkDefBlock (.functionDef i name (.arguments ai po ar va ko kd kw df) body decos returns false)).globals ++
+      (mkDefBlock (.functionDef i name (.arguments ai po ar va ko kd kw df) body decos returns false)).nonlocals) new = [] := by
+    have := hnb
+    simp only [nonlocalBelow, hblk, Acc.toBlock] at this
+    simp only [mkDefBlock, Acc.toBlock, Block.params, Block.binds, Block.globals, Block.nonlocals, ← hnew]
+    exact nil_of_dedup _ this
+  have hSroot : shadowB (mkDefBlock (.functionDef i name (.arguments ai po ar va ko kd kw df) body decos returns false)) = [] := by
+    have := hshadow
+    simp only [classShadow, hblk] at this
+    exact nil_of_dedup _ this
+  have hv : nlOkB [] (mkDefBlock (.functionDef i name (.arguments ai po ar va ko kd kw df) body decos returns false)) = true := by
+    simpa [nonlocalsResolve, hblk, mkDefBlock] using hnl
+  -- … hence at the block of `d`
+  have hSd := shadow_all _ hSroot (mkDefBlock d) hmem
+  obtain ⟨B, hctx⟩ := ctx_of_mem _ [] (mkDefBlock d) hmem
+  cases d with
+  | functionDef i' name' args' body' decos' returns' isAsync' =>
+    cases args' with
+    | arguments ai' po' ar' va' ko' kd' kw' df' =>
+      have hkind : (mkDefBlock (.functionDef i' name' (.arguments ai' po' ar' va' ko' kd' kw' df') body' decos' returns' isAsync')).kind = .function := by
+        simp [mkDefBlock, Acc.toBlock, Block.kind]
+      have hthree : leaksBs
+          ((mkDefBlock (.functionDef i' name' (.arguments ai' po' ar' va' ko' kd' kw' df') body' decos' returns' isAsync')).params ++
+           (mkDefBlock (.functionDef i' name' (.arguments ai' po' ar' va' ko' kd' kw' df') body' decos' returns' isAsync')).binds ++
+           (mkDefBlock (.functionDef i' name' (.arguments ai' po' ar' va' ko' kd' kw' df') body' decos' returns' isAsync')).globals ++
+           (mkDefBlock (.functionDef i' name' (.arguments ai' po' ar' va' ko' kd' kw' df') body' decos' returns' isAsync')).nonlocals)
+          (mkDefBlock (.functionDef i' name' (.arguments ai' po' ar' va' ko' kd' kw' df') body' decos' returns' isAsync')).children = [] ∧
+          declBelowBs true
+          ((mkDefBlock (.functionDef i' name' (.arguments ai' po' ar' va' ko' kd' kw' df') body' decos' returns' isAsync')).params ++
+           (mkDefBlock (.functionDef i' name' (.arguments ai' po' ar' va' ko' kd' kw' df') body' decos' returns' isAsync')).binds ++
+           (mkDefBlock (.functionDef i' name' (.arguments ai' po' ar' va' ko' kd' kw' df') body' decos' returns' isAsync')).globals ++
+           (mkDefBlock (.functionDef i' name' (.arguments ai' po' ar' va' ko' kd' kw' df') body' decos' returns' isAsync')).nonlocals)
+          (mkDefBlock (.functionDef i' name' (.arguments ai' po' ar' va' ko' kd' kw' df') body' decos' returns' isAsync')).children = [] ∧
+          declBelowBs false
+          ((mkDefBlock (.functionDef i' name' (.arguments ai' po' ar' va' ko' kd' kw' df') body' decos' returns' isAsync')).params ++
+           (mkDefBlock (.functionDef i' name' (.arguments ai' po' ar' va' ko' kd' kw' df') body' decos' returns' isAsync')).binds ++
+           (mkDefBlock (.functionDef i' name' (.arguments ai' po' ar' va' ko' kd' kw' df') body' decos' returns' isAsync')).globals ++
+           (mkDefBlock (.functionDef i' name' (.arguments ai' po' ar' va' ko' kd' kw' df') body' decos' returns' isAsync')).nonlocals)
+          (mkDefBlock (.functionDef i' name' (.arguments ai' po' ar' va' ko' kd' kw' df') body' decos' returns' isAsync')).children = [] := by
+        rw [hall] at hmem
+        simp only [List.mem_cons] at hmem
+        rcases hmem with he | hmem
+        · rw [he, hch]; exact ⟨hLroot, hGroot, hNroot⟩
+        · exact ⟨leakFree_allL new _ hLroot _ hmem (by rw [hkind]; rfl),
+            declBelow_allL true new _ hGroot _ hmem (by rw [hkind]; rfl),
+            declBelow_allL false new _ hNroot _ hmem (by rw [hkind]; rfl)⟩
+      obtain ⟨hLd, hGd, hNd⟩ := hthree
+      simp only [FragS, Bool.and_eq_true] at hdf
+      simp only [SpecOkS] at hds
+      obtain ⟨cI, ca, h1, h2, hb, hg, hn, hp, hr⟩ := hok
+      have hA := def_outer i' name' ai' po' ar' va' ko' kd' kw' df' body' decos' returns' isAsync' hdf.2 hds cI hb hg hn hr _ rfl
+        hGd hNd hLd hSd
+      obtain ⟨info, hinfo, hfacts, hfrees⟩ := table_frees _ 0 [] [] [] hw (fun _ => Iff.rfl) hv _ hctx (by rw [hkind]; rfl)
+      refine ⟨cI, info, B, ?_, ?_, ?_, hctx, ?_, hfrees⟩
+      · rw [St.anno?, find_of_unique _ hu i' .argsAndBodyScope cI h1]; rfl
+      · simp only [Spec.table, hblk]; exact hinfo
+      · simpa [mkDefBlock, Acc.toBlock, Block.id] using hfacts.1
+      · intro x
+        rw [← hA x]
+        simp [Scope.freeVars]
     | _ => simp [FragS] at hdf
   | _ => trivial
 
@@ -434,6 +591,34 @@ example : kind (table sampleTree) 1 "x" = .local ∧ kind (table sampleTree) 1 "
 example : (defsS sampleTree).length = 2 ∧ allDeclsDisjoint sampleTree = true := by decide
 example : ∀ d ∈ defsS sampleTree, DefMatches (analyze sampleTree) (table sampleTree) d :=
   C08_classes_nested _ _ _ _ _ _ _ _ _ _ _ _ _ sampleTree rfl (by decide) (by decide) (by decide) (by decide) (by decide)
+
+/-- Three levels, through a class body:
+    `def f(a): x = a; (class K: w = x; def m(): (def h(): return x + G); return h); return K`. -/
+def deepTree : Stmt :=
+  .functionDef 1 "f" (.arguments 2 [] [.arg 3 "a" []] [] [] [] [] [])
+    [ .assign 4 [.name 5 "x" .store] (.name 6 "a" .load),
+      .classDef 7 "K" [] []
+        [ .assign 8 [.name 9 "w" .store] (.name 10 "x" .load),
+          .functionDef 11 "m" (.arguments 12 [] [] [] [] [] [] [])
+            [ .functionDef 14 "h" (.arguments 15 [] [] [] [] [] [] [])
+                [.ret 16 [.binop 17 "Add" (.name 18 "x" .load) (.name 19 "G" .load)]] [] [] false,
+              .ret 20 [.name 21 "h" .load] ] [] [] false ] [],
+      .ret 22 [.name 23 "K" .load] ] [] [] false
+
+/-- the hypotheses of `C08_frees_nested` hold for it … -/
+example : FragS deepTree = true ∧ SpecOkS deepTree = true ∧ uniqueAnnos (analyze deepTree).annos = true ∧
+    harmfulLeaks deepTree = [] ∧ classShadow deepTree = [] ∧ globalBelow deepTree = [] ∧ nonlocalBelow deepTree = [] ∧
+    nonlocalsResolve deepTree = true ∧ (defsS deepTree).length = 3 := by decide
+example : ∀ d ∈ defsS deepTree, FreesMatch (analyze deepTree) (mkDefBlock deepTree) (table deepTree) d :=
+  C08_frees_nested _ _ _ _ _ _ _ _ _ _ _ _ _ deepTree rfl (by decide) (by decide) (by decide) (by decide) (by decide)
+    (by decide) (by decide) (by decide)
+/-- … and the conclusion is not vacuous: `h` (two functions and a class deep) passes `x` and `G` outwards, CPython
+    makes `x` its free variable and `G` a global; `m` only threads `x` through; `f` has no free variable. -/
+example : ((classify deepTree (analyze deepTree) 14 [11, 1]).map fun c => (c.freeVars, c.frees)) = some (["G", "x"], ["x"]) := by decide
+example : outerB (mkDefBlock deepTree) = ["G"] := by decide
+example : ((table deepTree).filter (fun b => b.id == 14 || b.id == 11 || b.id == 1)).map (fun b => (b.id, b.frees))
+    = [(1, []), (11, ["x"]), (14, ["x"])] := by decide
+example : kind (table deepTree) 14 "G" = .globalImplicit ∧ kind (table deepTree) 11 "x" = .free := by decide
 
 /-- `def f(c): k = (lambda N: N)(1); return k + N` — the parameter `N` of the lambda leaks into `f`'s bound
     locals, although `N` is a global name in `f`. -/
